@@ -201,7 +201,7 @@ class RealSys:
                 self.f.reset(fk)
                 # ghosts: was configuration saving on for this run; is a checkpoint resumed under another proposal
                 d0 = getattr(self.a, "_checkpoint_defaults", None)
-                path_on = use_path or bool(d0)
+                path_on = use_path or (bool(d0) and str(d0.get("path")) == str(self.path))     # the file this replay follows
                 save_cfg = True if use_path else (bool(d0["save_config"]) if d0 else False)
                 will_resume_smc = resuming and stype in ("smc", "minipcn_smc", "emcee_smc")
                 stale = resuming and pre["fck"]["sampler"] != "none" and pre["fck"]["under"] != pre["flow"]
@@ -219,7 +219,8 @@ class RealSys:
                     elif path_on and stale and after["blob"] is not None:
                         self.ck_refit = True
             elif name == "EnterAuto":
-                cm = self.a.auto_checkpoint(self.path, save_config=args[0])
+                side = len(args) > 1 and args[1] is True
+                cm = self.a.auto_checkpoint(self.path + ".side.h5" if side else self.path, save_config=args[0])
                 cm.__enter__()
                 self.cms.append(cm)
             elif name == "ExitAuto":
@@ -360,9 +361,9 @@ def replay_edge(job):
     return res
 
 
-def tlc_cfg(maxops, repaired, invariants=True):
+def tlc_cfg(maxops, repaired, invariants=True, narrow=False):
     t = "TRUE" if repaired else "FALSE"
-    lines = ["SPECIFICATION Spec", "CONSTANTS", f"  MaxOps = {maxops}", f"  RewriteFlow = {t}",
+    lines = ["SPECIFICATION Spec", "CONSTANTS", f"  MaxOps = {maxops}", f"  Narrow = {'TRUE' if narrow else 'FALSE'}", f"  RewriteFlow = {t}",
              f"  DropStaleCkpt = {t}", "  MapClassName = FALSE", f"  ResumeSavesConfig = {t}"]
     if invariants:
         lines += ["INVARIANT ProposalMatchesCheckpoint", "INVARIANT ConfigNamesWriter", "INVARIANT ConfigAndFlowFirst"]
@@ -419,6 +420,29 @@ def main(prop, tier, seed, replay_path=None):
             labels = [l for (_, l) in path] + [lab]
             states = [g.nodes[n] for (n, _) in path] + [g.nodes[v]]
             jobs.append((labels, states))
+        # a deeper graph over a narrower alphabet (contexts on the file and on a second file, fits and runs):
+        # the histories that need seven operations
+        wd3 = workdir("lifecycle-narrow")
+        try:
+            (wd3 / "n.cfg").write_text(tlc_cfg(7 if tier == "quick" else 8, repaired, invariants=False, narrow=True))
+            g2, rg2 = stategraph.dump_graph("Lifecycle", str(wd3 / "n.cfg"), "lifecycle-narrow")
+        finally:
+            cleanup(wd3)
+        best2 = {}
+        for e in g2.edges:
+            key = (view(g2.nodes[e[0]]), e[2])
+            if key not in best2 or g2.nodes[e[0]]["nops"] < g2.nodes[best2[key][0]]["nops"]:
+                best2[key] = e
+        edges2 = sorted(best2.values())
+        rnd.shuffle(edges2)
+        # the deepest edges first (the shallow ones are in the full-alphabet graph)
+        edges2.sort(key=lambda e: -g2.nodes[e[0]]["nops"])
+        n_narrow = 0
+        for (u, v, lab) in edges2[: (2500 if tier == "quick" else 40000)]:
+            _, path = g2.path_to(u)
+            labels = [l for (_, l) in path] + [lab]
+            states = [g2.nodes[n] for (n, _) in path] + [g2.nodes[v]]
+            jobs.append((labels, states)); n_narrow += 1
         # long random walks through the specification (TLC simulation mode), replayed in full
         wd2 = workdir("lifecycle-sim")
         try:
@@ -474,7 +498,8 @@ def main(prop, tier, seed, replay_path=None):
         "graph": {"depth": depth_g, "states": len(g.nodes), "edges": len(g.edges),
                   "distinct_state_operation_pairs": (n_unique if not replay_path else 0),
                   "edges_replayed": len(jobs) - (n_sim if not replay_path else 0),
-                  "simulated_behaviours_replayed": (n_sim if not replay_path else 0)},
+                  "simulated_behaviours_replayed": (n_sim if not replay_path else 0),
+                  "narrow_alphabet_graph": ({"depth": 7 if tier == "quick" else 8, "states": len(g2.nodes), "edges": len(g2.edges), "edges_replayed": n_narrow} if not replay_path else {})},
         "conformance_rejections": len(drifts), "real_state_violations": n_viol, "known_findings_hit": known,
     }
     write_evidence(prop, tier, seed, time.time() - t0, cov, STD_ASSUMPTIONS + [
